@@ -117,7 +117,12 @@ class Session:
     def eq(self, rule, construct, nz: Normalizer, got, want, fact, loc="", key="", necessary_for=""):
         cg, cw = nz.canon(got), nz.canon(want)
         ok = cg == cw
-        detail = "" if ok else f"code normal form:      {show_term(cg, 900)}\nreference normal form: {show_term(cw, 900)}"
+        detail = ""
+        if not ok:
+            da, db = diff_terms(cg, cw)
+            detail = (f"first difference  code: {show_term(da, 400)}\n"
+                      f"             reference: {show_term(db, 400)}\n"
+                      f"code normal form:      {show_term(cg, 500)}\nreference normal form: {show_term(cw, 500)}")
         if ok:
             detail = f"NF: {show_term(cg, 300)}"
             self.sites[rule] = self.sites.get(rule, 0) + 1
@@ -137,6 +142,22 @@ class Session:
         n = self.sites.get(rule, 0)
         if n < minimum:
             raise AnalysisError(f"rule={rule} examined {n} sites, confirmed floor is {minimum} (anchor vanished?)")
+
+
+def diff_terms(a, b):
+    """Smallest pair of differing sub-terms (descends while exactly one child differs)."""
+    while isinstance(a, tuple) and isinstance(b, tuple) and len(a) == len(b) and a and b and a[0] == b[0]:
+        diffs = [i for i in range(len(a)) if a[i] != b[i]]
+        if len(diffs) != 1:
+            break
+        i = diffs[0]
+        if not (isinstance(a[i], tuple) and isinstance(b[i], tuple)):
+            break
+        a, b = a[i], b[i]
+    if (isinstance(a, tuple) and isinstance(b, tuple) and a and b and a[0] == b[0] == "call" and a[1] != b[1]
+            and isinstance(a[1], str) and isinstance(b[1], str)):
+        return ("k", "callee " + a[1]), ("k", "callee " + b[1])
+    return a, b
 
 
 # ----------------------------------------------------------------------------- known findings
